@@ -2,7 +2,7 @@ import GB.C08.Model
 import GB.C07.Model
 /-
   C08 — the VALUES of the HTTP/1-style block inside a gRPC-Web trailer frame / gRPC-WebSocket header frame
-  (webbridge/grpcweb.go lpmTrailerValue, after fix D36).
+  (webbridge/grpcweb.go lpmTrailerValue, after fix D38).
 
     lpmTrailer(md) writes, per key and value,  fmt.Sprintf("%s: %s\r\n", k, lpmTrailerValue(k, v))
     lpmTrailerValue(k, v) = base64.RawStdEncoding.EncodeToString(v)          if strings.HasSuffix(k, "-bin")
@@ -41,7 +41,7 @@ def encodeMD (md : MD) : MD := md.map (fun kv => (kv.1, trailerValue kv.1 kv.2))
 /-- the code: `lpmTrailer(trailerWithStatus(md, st))` -/
 def lpmTrailerCode (md : MD) (code : Nat) (msg : Bytes) : Bytes := lpmTrailer (encodeMD (trailerWithStatus md code msg))
 
-/-- the code before fix D36: every value as-is -/
+/-- the code before fix D38: every value as-is -/
 def lpmTrailerPreFix (md : MD) (code : Nat) (msg : Bytes) : Bytes := lpmTrailer (trailerWithStatus md code msg)
 
 end GB.C08
